@@ -351,16 +351,35 @@ def run(ctx):
         pass
     if (int(m.total_bits), int(m.error_bits)) != (2, 1):
         ctx.violation("C16/BitErrorRate/shape-mismatch", "rejected update changed the counters", {})
-    for shape in ((2, 3, 4), (3, 2, 2, 2)):
-        x = torch.tensor([float(rng.randint(0, 1)) for _ in range(int(np.prod(shape)))]).reshape(shape)
-        y = x.clone()
-        y.view(-1)[rng.randrange(y.numel())] = 1 - y.view(-1)[rng.randrange(1)]
-        for B in (2, 4):
-            r = Ref("bler", 0.0, B).count(x.reshape(shape[0], -1).tolist(), y.reshape(shape[0], -1).tolist())
-            bl = float(blermod.BlockErrorRate(block_size=B)(x, y))
-            ctx.count("multidim-bler")
-            if abs(bl - r[1] / r[0]) > 1e-6:
-                ctx.violation("C16/BlockErrorRate/forward/multi-dim", "BLER on shape %s wrong: %r vs %d/%d" % (shape, bl, r[1], r[0]), {"shape": list(shape), "B": B})
+    # blocks are cut from each item's flattened elements: block sizes that divide the item but not its last dimension included
+    for shape in ((2, 3, 4), (3, 2, 2, 2), (2, 2, 3), (1, 2, 6), (2, 3, 2), (2, 2, 5)):
+        per = int(np.prod(shape[1:]))
+        for B in [b_ for b_ in (2, 3, 4, 5, 6) if per % b_ == 0]:
+            for trial in range(4):
+                x = torch.tensor([float(rng.randint(0, 1)) for _ in range(int(np.prod(shape)))]).reshape(shape)
+                y = x.clone()
+                for pos in ([0], [x.numel() - 1], [shape[-1] - 1], rng.sample(range(x.numel()), 2))[trial]:
+                    y.view(-1)[pos] = 1 - y.view(-1)[pos]
+                r = Ref("bler", 0.0, B).count(x.reshape(shape[0], -1).tolist(), y.reshape(shape[0], -1).tolist())
+                ctx.count("multidim-bler")
+                nerr = int((x != y).sum())
+                mb = BitErrorRate()
+                mb.update(x, y)
+                if abs(float(BitErrorRate()(x, y)) - nerr / x.numel()) > 1e-6 or abs(float(mb.compute()) - nerr / x.numel()) > 1e-6:
+                    ctx.violation("C16/BitErrorRate/forward/multi-dim", "BER on shape %s with %d differing bits: one-shot %r, streaming %r" % (shape, nerr, float(BitErrorRate()(x, y)), float(mb.compute())), {"shape": list(shape)})
+                    break
+                try:
+                    bl = float(blermod.BlockErrorRate(block_size=B)(x, y))
+                    ms = blermod.BlockErrorRate(block_size=B)
+                    ms.update(x, y)
+                    bs = float(ms.compute())
+                except Exception as ex:
+                    ctx.violation("C16/BlockErrorRate/forward/multi-dim", "BLER on shape %s with block_size %d (a divisor of the %d elements per item) raised %s: %s" % (shape, B, per, type(ex).__name__, str(ex)[:80]), {"shape": list(shape), "B": B})
+                    break
+                if abs(bl - r[1] / r[0]) > 1e-6 or abs(bs - r[1] / r[0]) > 1e-6:
+                    ctx.violation("C16/BlockErrorRate/forward/multi-dim", "BLER on shape %s, block_size %d, differences at flat positions %s: one-shot %r, streaming %r, reference %d/%d" % (
+                        shape, B, (x != y).reshape(-1).nonzero().reshape(-1).tolist(), bl, bs, r[1], r[0]), {"shape": list(shape), "B": B})
+                    break
     # ------------------------------------------------------------------ the same tensor objects used again, in the dtypes a caller may hold bits in
     for dt in (torch.bool, torch.uint8, torch.int32, torch.int64, torch.float32, torch.float64):
         xb_ = torch.tensor([[1, 0, 1, 1, 0, 0, 1, 0], [0, 0, 1, 0, 1, 1, 1, 0]]).to(dt)
